@@ -146,7 +146,7 @@ def run_server(kconfig, sdkconfig, sdkconfig_rename, default_version=MAX_PROTOCO
             break
         try:
             req = json.loads(line)
-        except JSONDecodeError as e:
+        except ValueError as e:  # JSONDecodeError, or e.g. an integer literal beyond Python's digit limit
             response = {
                 "version": default_version,
                 "error": [f"JSON formatting error: {e}"],
